@@ -132,6 +132,13 @@ def run(ctx, replay=None):
                     s2 = {"id": nid, "cfg": dict(sc["cfg"], gtype=gt), "steps": sc["steps"]}
                     nid += 1
                     expanded.append(s2)
+            # model-independent variant of a sample of the forgery scripts: before the forged entry is presented, the
+            # attacker relays the honest envelopes as push payloads whose CID field names the forged entry
+            forg = [x for x in expanded if x["cfg"].get("mode") in ("forge", "product")]
+            npf = 60 if ctx.tier == "quick" else 600
+            for x in (forg if len(forg) <= npf else ctx.rng.sample(forg, npf)):
+                expanded.append({"id": nid, "cfg": dict(x["cfg"], pushfirst=True), "steps": x["steps"]})
+                nid += 1
             groups[shared] = expanded
             runs.extend(expanded)
     if not runs:
@@ -147,12 +154,13 @@ def run(ctx, replay=None):
         if not scripts:
             continue
         cconsts = {"W": str(W), "Shared": _tla_bool(shared), "SigCtx": SIGCTX_CURRENT}
-        fam = [s for s in scripts if _replay_family(s)]
-        rest = [s for s in scripts if not _replay_family(s)]
+        pushf = [s for s in scripts if s["cfg"].get("pushfirst")]
+        fam = [s for s in scripts if _replay_family(s) and not s["cfg"].get("pushfirst")]
+        rest = [s for s in scripts if not _replay_family(s) and not s["cfg"].get("pushfirst")]
         cap = 2 if ctx.tier == "quick" else 10
         if len(fam) > cap:
             fam = sorted(ctx.rng.sample(fam, cap), key=lambda s: s["id"])
-        for part, name, maxrej in ((rest, "rest", 3), (fam, "replayfam", len(fam) + 1)):
+        for part, name, maxrej in ((rest, "rest", 3), (fam, "replayfam", len(fam) + 1), (pushf, "pushfirst", 8)):
             if not part:
                 continue
             evs = []
@@ -160,7 +168,7 @@ def run(ctx, replay=None):
                 evs.append({"ev": "reset", "id": s["id"]})
                 evs.extend(byid[s["id"]])
             nm = "%s_%s" % ("shared" if shared else "pergroup", name)
-            acc, rejects = vf.validate_blocks(ctx, MON, evs, nm, consts=cconsts, conf=CONF, max_rejects=maxrej, timeout=1500)
+            acc, rejects = vf.validate_blocks(ctx, MON, evs, nm, consts=cconsts, conf=None if name == "pushfirst" else CONF, max_rejects=maxrej, timeout=1500)
             ctx.evaluations += len(part)
             for s in part:
                 ev = byid[s["id"]]
